@@ -25,7 +25,7 @@ Import ListNotations.
 
 IMPORTS = ("Scalar Outcome Support Poly Spline Ops Forms Generator Interp Spec Spec_Ops Spec_Gen "
            "Proofs_Support Proofs_Scalar Proofs_Poly Proofs_Binom Proofs_Eval Proofs_Outcome Proofs_Spline "
-           "Proofs_Forms Proofs_Ops Proofs_Forms2 Proofs_Interp Proofs_Pred Proofs_Gen Instances Instances_Ext Proofs_Valid Solver Pool Quad Proofs_Pool Proofs_Quad Proofs_Sites Proofs_Rounded Proofs_Threads Proofs_Updates Examples Proofs_Examples Proofs_Analysis Proofs_SupportGen")
+           "Proofs_Forms Proofs_Ops Proofs_Forms2 Proofs_Interp Proofs_Pred Proofs_Gen Instances Instances_Ext Proofs_Valid Solver Pool Quad Proofs_Pool Proofs_Quad Proofs_Sites Proofs_Rounded Proofs_Threads Proofs_Updates Examples Proofs_Examples Proofs_Analysis Proofs_SupportGen Proofs_Smooth")
 
 TABLE = {
     "C02": ("evaluation returns the value of the stored piecewise polynomial", """
@@ -146,6 +146,11 @@ TABLE = {
         ("C01_local_support", "Proofs_Gen.B_local_support"),
         ("C01_nonnegative", "Proofs_Gen.B_nonneg"),
         ("C01_partition_of_unity", "Proofs_Gen.B_partition_of_unity"),
+        ("C01_smooth_across_knots", "Proofs_Smooth.gen_smooth"),
+        ("C01_smooth_at_every_grid_point", "Proofs_Smooth.gen_smooth_all"),
+        ("C01_continuous", "Proofs_Smooth.gen_continuous"),
+        ("C01_derivative_formula", "Proofs_Smooth.B_derivative_formula"),
+        ("C01_smoothness_is_sharp_example", "Proofs_Smooth.gen_smooth_qc_examples"),
         ("C01_supplied_grid_route", "Proofs_Gen.gen_route2"),
         ("C01_supplied_grid_mismatch", "Proofs_Gen.gen_route2_mismatch"),
         ("C01_constructor", "Proofs_Gen.gen_ctor1_iff"),
